@@ -548,6 +548,10 @@ class Body:
                     t = self._simp_vfield(t)
                 elif t[0] == 'agg' and e['f'] < len(t[3]) and t[1] in ('tuple',):
                     t = t[3][e['f']]
+                elif t[0] == 'agg' and e['f'] < len(t[3]) and self.prog.adts.get(strip_generics(str(t[1])), {}).get("kind") == "struct" \
+                        and len(t[3]) == len(self.prog.adts[strip_generics(str(t[1]))]["variants"][0]["fields"]):
+                    # a field of a crate-local struct that was just built (e.g. the value returned by an inlined helper)
+                    t = t[3][e['f']]
                 else:
                     t = ('field', t, e.get('name', str(e['f'])))
             elif isinstance(e, dict) and 'downcast' in e:
